@@ -1,8 +1,8 @@
 (* C14: the compile-now / stub / raise decision of the builders and the arguments of the stub's re-build are the
    ones of the source (kernel K114a, translated from builder.py on every run). *)
 From Coq Require Import List Arith Bool ZArith.
-From Verif Require Import Regex PyK LazyModel LazyProofs LazyK114a.
-From VerifGen Require Import K114a.
+From Verif Require Import Regex PyK LazyModel LazyProofs LazyK114a LazyK114b.
+From VerifGen Require Import K114a K114b.
 Import ListNotations.
 Close Scope Z_scope.
 Open Scope nat_scope.
@@ -53,6 +53,45 @@ Theorem C14_stub_step_follows_source : forall F fuel st c m sc sm,
   end.
 Proof. exact stub_step_follows_source. Qed.
 Print Assumptions C14_stub_step_follows_source.
+
+(* on-demand compilation of a nested dataclass (pack_dataclass / unpack_dataclass, kernel K114b): the translated test, as a
+   boolean function ... *)
+Theorem C14_source_ondemand_test : forall pack not_own other d top,
+  src_ondemand pack not_own other d top =
+  Some (not_own && (other || match d with None => false | Some _ => true end || top)).
+Proof. exact src_ondemand_eq. Qed.
+Print Assumptions C14_source_ondemand_test.
+
+(* ... decides every step of LazyModel.deps_with, and the nested builder is the one the source creates (dialect None for a
+   mixin builder - the nested class gets its DEFAULT method, fix 28d8957 -, postponing allowed, no first_method) *)
+Theorem C14_deps_step_follows_source : forall F n c m d f r st,
+  let sk := match d with None => true | Some _ => false end in
+  let bld := fun st c' m' => build F true n st true c' m' None in
+  deps_with bld sk c m (f :: r) st =
+  match src_ondemand (m_pack m)
+          (match get_slot st (f_cls f) (nested m (f_spec f)) with None => true | Some _ => false end)
+          (negb (Nat.eqb (f_cls f) c)) d (m_top m) with
+  | Some true =>
+      match src_bld F n m d st (f_cls f) (nested m (f_spec f)) with
+      | (st', None) => deps_with bld sk c m r st'
+      | (st', Some e) => (st', Some e)
+      end
+  | Some false => deps_with bld sk c m r st
+  | None => (st, Some EBuildCycle)
+  end.
+Proof. exact deps_step_follows_source. Qed.
+Print Assumptions C14_deps_step_follows_source.
+
+Theorem C14_build_ondemand_follows_source : forall F n st ap c m d,
+  src_lazy_first (m_pack m) (c_lazy (cls F c)) ap true d = Some false ->
+  unresolved F st c = false ->
+  build F true (S n) st ap c m d =
+  match deps_with (src_bld F n m d) (match d with None => true | Some _ => false end) c m (c_fields (cls F c)) st with
+  | (st1, None) => install F st1 c m d (Compiled c m d)
+  | (st1, Some e) => (st1, Some e)
+  end.
+Proof. exact build_ondemand_follows_source. Qed.
+Print Assumptions C14_build_ondemand_follows_source.
 
 (* non-vacuity: Config.allow_postponed_evaluation = False fails at class creation exactly when a reference is
    unresolved and the class is not lazy *)
